@@ -279,6 +279,36 @@ func RunHostile(c HostileCase) (out *HOutcome) {
 				case ion.IntType:
 					r.IntValue()
 					r.IntSize()
+					r.Int64Value()
+					if b, _ := r.BigIntValue(); b != nil {
+						_ = b.String()
+					}
+				case ion.BoolType:
+					r.BoolValue()
+				case ion.FloatType:
+					r.FloatValue()
+				case ion.DecimalType:
+					// what a caller does with a value it has read: print it, compare it, take it apart
+					if v, _ := r.DecimalValue(); v != nil {
+						_ = v.String()
+						v.CoEx()
+						v.Sign()
+						v.Cmp(v)
+					}
+				case ion.TimestampType:
+					if v, _ := r.TimestampValue(); v != nil {
+						_ = v.String()
+						v.GetDateTime()
+						v.Equal(*v)
+					}
+				case ion.SymbolType:
+					if v, _ := r.SymbolValue(); v != nil {
+						_ = v.String()
+					}
+				case ion.StringType:
+					r.StringValue()
+				case ion.ClobType, ion.BlobType:
+					r.ByteValue()
 				case ion.ListType, ion.SexpType, ion.StructType:
 					if !r.IsNull() && d < 200 {
 						if r.StepIn() == nil {
@@ -286,6 +316,9 @@ func RunHostile(c HostileCase) (out *HOutcome) {
 							r.StepOut()
 						}
 					}
+				}
+				if st := r.SymbolTable(); st != nil && d == 0 {
+					_ = st.String()
 				}
 			}
 		}
